@@ -4,7 +4,7 @@ from .. import core, mt_check
 
 def run(tier, seed, verdict):
     quick = tier == "quick"
-    iters = 500 if quick else 5000
+    iters = 500 if quick else 2500
     res = mt_check.MtResult()
     for variant in ("asan20d", "tsan20d"):
         it = iters if variant.startswith("asan") else iters // 2
@@ -13,12 +13,12 @@ def run(tier, seed, verdict):
                                              ("autoreset", (0, 301)))):
             n = 2 if quick else 4
             a += [x + ["mode=" + mode, "iters=%d" % it] for x in mt_check.seeds_args(seed + 10 * i, n, [], victims)]
-        mt_check.run_mt("C16", "sync", variant, a, verdict, res, timeout=900)
+        mt_check.run_mt("C16", "sync", variant, a, verdict, res, timeout=900 if quick else 3600)
         # async_pass rendezvous (hook sites 321-326 async_pass, 341-345 cancellable)
         pn = (4000 if quick else 40000) // (1 if variant.startswith("asan") else 2)
         pa = [["seed=%d" % (seed * 100 + 70 + i), "iters=%d" % pn, "perturb=1", "victim=%d" % v]
               for i, v in enumerate((0, 324, 326, 342) if quick else (0, 321, 322, 323, 324, 325, 326, 342, 343))]
-        mt_check.run_mt("C16", "pass", variant, pa, verdict, res, timeout=900)
+        mt_check.run_mt("C16", "pass", variant, pa, verdict, res, timeout=900 if quick else 3600)
     st = res.stats
     need = ["event_v1_outcome_woken_by_later_set", "event_v2_outcome_woken_by_later_set",
             "event_v2_outcome_cancelled_done", "event_v2_outcome_stop_lost_race_value",
